@@ -188,13 +188,17 @@ type ChanCfg struct {
 	Async bool
 	Q     int
 	Until bool
-	WBuf  int // > 0: the channel's transport is the real buffering wrapper transport.NewTransport(conn, 0, WBuf)
+	WBuf  int // > 0: the channel's transport is the real buffering wrapper transport.NewTransport(conn, RBuf, WBuf)
+	RBuf  int // with WBuf: read buffering too (the wrapper variant buffering both directions)
 }
 
 func (c ChanCfg) String() string {
 	if c.WBuf > 0 {
 		d := c
 		d.WBuf = 0
+		if c.RBuf > 0 {
+			return fmt.Sprintf("%s over a transport buffering both directions (read %d, write %d bytes)", d.String(), c.RBuf, c.WBuf)
+		}
 		return fmt.Sprintf("%s over a %d-byte write-buffered transport", d.String(), c.WBuf)
 	}
 	if !c.Async {
@@ -230,7 +234,7 @@ func (e *Env) NewRig(cc ChanCfg, execDelay bool, handlers ...netty.Handler) *Rig
 	r.Ctx, r.Cancel = context.WithCancel(context.Background())
 	var tr transport.Transport = r.Conn
 	if cc.WBuf > 0 {
-		tr = transport.NewTransport(r.Conn, 0, cc.WBuf)
+		tr = transport.NewTransport(r.Conn, cc.RBuf, cc.WBuf)
 		r.Buffered = true
 	}
 	r.Ch = cc.Factory()(1, r.Ctx, r.Pl, tr, r.X)
